@@ -78,6 +78,13 @@ def cases(rng, tier):
             for inf2 in infs:
                 cs.append(Case(pre + "eq", [g.spec] + inf + inf2))
                 cs.append(Case(pre + "add", [g.spec] + inf + inf2))
+        # pairs related by the order-3 automorphism: same y / opposite y but different x (never produced by random sampling)
+        if g.grp != "G12":
+            for P in pts[:3]:
+                for Q in (O.phi(P, g.b.p), O.aff_neg(O.phi(P, g.b.p)), O.phi(O.phi(P, g.b.p), g.b.p)):
+                    sp, sq = _scales(rng, g, 2)[-1], _scales(rng, g, 2)[-1]
+                    cs.append(Case(pre + "add", [g.spec] + proj_tokens(P, sp) + proj_tokens(Q, sq)))
+                    cs.append(Case(pre + "eq", [g.spec] + proj_tokens(P, sp) + proj_tokens(Q, sq)))
         for _ in range(n * 2):
             P, Q = rng.choice(pts), rng.choice(pts)
             sp, sq = _scales(rng, g, 2)[-1], _scales(rng, g, 2)[-1]
@@ -113,6 +120,9 @@ def cases(rng, tier):
             cs.append(Case("secp.jacobian_add", [0, 0, 0] + jac(P, lam)))
             Q = rng.choice(spts)
             cs.append(Case("secp.jacobian_add", jac(P, lam) + jac(Q, lam2)))
+    for P in spts[:3]:
+        for Q in (O.phi(P, P_), O.aff_neg(O.phi(P, P_))):
+            cs.append(Case("secp.jacobian_add", jac(P, rng.randrange(1, P_)) + jac(Q, rng.randrange(1, P_))))
     cs.append(Case("secp.jacobian_double", [0, 0, 1]))
     cs.append(Case("secp.jacobian_double", [5, 0, 3]))
     cs.append(Case("secp.from_jacobian", [0, 0, 0]))
@@ -237,6 +247,10 @@ def predicates(rng, tier, only=None):
         if not g.opt or g.grp == "G12":
             continue
         pts = _points(rng, g, n)
+        for P in pts[:2]:
+            for Q in (O.phi(P, g.b.p), O.aff_neg(O.phi(P, g.b.p))):
+                ps.append(Pred("formulas-vs-affine", formula_pred,
+                               (gi, P, Q, rng.choice(pts), rand_scale(rng, g.b), rand_scale(rng, g.b), rand_scale(rng, g.b))))
         for _ in range(n):
             P, Q, T = rng.choice(pts), rng.choice(pts), rng.choice(pts)
             ps.append(Pred("formulas-vs-affine", formula_pred,
@@ -247,6 +261,9 @@ def predicates(rng, tier, only=None):
         P = O.aff_mul(G, rng.randrange(1, N_))
         Q = O.aff_mul(G, rng.randrange(1, N_))
         ps.append(Pred("jacobian-vs-affine", jacobian_pred, (P, Q, rng.randrange(1, P_), rng.randrange(1, P_))))
+        if _ < 2:
+            ps.append(Pred("jacobian-vs-affine", jacobian_pred, (P, O.phi(P, P_), rng.randrange(1, P_), rng.randrange(1, P_))))
+            ps.append(Pred("jacobian-vs-affine", jacobian_pred, (P, O.aff_neg(O.phi(P, P_)), rng.randrange(1, P_), rng.randrange(1, P_))))
     if only:
         ps = [p for p in ps if p.name == only]
     return ps
